@@ -731,6 +731,19 @@ func (e *Enc) evalCall(env *Env, n *ast.CallExpr) TV {
 		then := e.constFor("omThen", e.byteMem(env.old))
 		return TV{V: Sc{T{fmt.Sprintf("(forall ((%s (_ BitVec 64))) (! (=> (bvult %s %s) (= (select %s %s) (select %s %s))) :pattern ((select %s %s))))",
 			q, q, env.old.allocArr.S, now.S, q, then.S, q, now.S, q), SBool}}, Ty: boolT}
+	case "hasPrefix":
+		a := e.eval(env, n.Args[0])
+		pfx := e.eval(env, n.Args[1])
+		if pfx.Const == nil {
+			e.evalFail(env, "hasPrefix: second argument must be a string constant")
+		}
+		sv, ok := a.V.(Str)
+		if !ok {
+			e.evalFail(env, "hasPrefix of %T", a.V)
+		}
+		var out T
+		e.withState(env.st, func() { out = e.hasPrefix(sv, constant.StringVal(pfx.Const)) })
+		return TV{V: Sc{out}, Ty: boolT}
 	case "isnil":
 		a := e.eval(env, n.Args[0])
 		return TV{V: Sc{e.isNil(env, a.V)}, Ty: boolT}
@@ -741,6 +754,14 @@ func (e *Enc) evalCall(env *Env, n *ast.CallExpr) TV {
 			e.evalFail(env, "fresh() needs an entry state")
 		}
 		return TV{V: Sc{and(ule(env.old.allocArr, a.Arr), ult(a.Arr, env.st.allocArr))}, Ty: boolT}
+	case "freshObj":
+		// the pointer refers to an object allocated during this call
+		a := e.eval(env, n.Args[0])
+		p, ok := a.V.(Ptr)
+		if !ok || p.K != pHeap || env.old == nil {
+			e.evalFail(env, "freshObj expects a heap pointer")
+		}
+		return TV{V: Sc{and(ule(env.old.allocRef, p.Ref), ult(p.Ref, env.st.allocRef))}, Ty: boolT}
 	case "be64", "be32", "be16", "le64", "le32", "le16":
 		s := e.asSl(env, e.eval(env, n.Args[0]))
 		off := bv64(0)
